@@ -129,6 +129,19 @@ def engine_quirk(ex, case, ref=None):
     if exc_name(ex) == "InvalidOperationError" and "conversion from" in msg and "failed" in msg and (
             "NaN" in msg or "inf" in msg):
         return "nan_or_inf_to_int"
+    if exc_name(ex) == "InvalidOperationError" and "conversion from `f64` to `i64` failed" in msg:
+        import re
+
+        m = re.search(r"values: \[([^\]]*)\]", msg)
+        nums = []
+        for tok in (m.group(1).split(",") if m else []):
+            try:
+                nums.append(float(tok.strip().replace("…", "")))
+            except ValueError:
+                pass
+        if nums and all(abs(x) >= 9.2e18 for x in nums):
+            # beyond the Int64 range (also inside a when/then branch that no row takes: Polars evaluates every branch)
+            return "float_to_int_overflow"
     if exc_name(ex) == "InvalidOperationError" and "conversion from `f64` to `i64` failed" in msg and ref is not None:
         from .refsem import UNDEF
 
